@@ -22,7 +22,7 @@ Section AHist.
   Lemma G_call d e w e1 ok : call e w = (e1, ok) -> acall_ok dv w -> G d e -> G d e1.
   Proof.
     unfold call, tr, G. intros H W [A [B C]].
-    destruct (match e_fault e with Some k => k =? e_calls e | None => false end); injection H as <- _; cbn [e_trace];
+    destruct (faulty e); injection H as <- _; cbn [e_trace];
       (split; [exact A|split; [exact B|constructor; [|exact C]]]); [|exact W].
     destruct w; try exact I; exact W.
   Qed.
